@@ -257,8 +257,20 @@ THookStall ==
   /\ ~dead /\ IsEvent("hookstall")
   /\ UNCHANGED <<vars, skip, dead, known>>
 
+\* a call on a RIB built without the reference checks (DisableRIBCheckFn): the specification does not
+\* model what it holds; the logged state is adopted and only MirrorIsRib is evaluated on it (C16)
+TUnchecked ==
+  /\ ~dead /\ IsEvent("unchecked")
+  /\ IF ~StateOK(Ev.st)
+     THEN Report({"stateError"}) /\ dead' = TRUE /\ UNCHANGED <<vars, skip, known>>
+     ELSE LET L == Logged(Ev.st) IN
+          /\ Report(Flag(L.mirror # L.rib, "mirrorVsRib"))
+          /\ Adopt(L)
+          /\ ref' = L.rib /\ pflush' = FALSE
+          /\ UNCHANGED <<fwd, call, out, skip, dead, known>>
+
 TraceNext == TReset \/ TDead \/ TPanic \/ TAddBegin \/ TTry \/ TAddEnd \/ TCallErr \/ TDelete
-             \/ TFlush \/ TAddNI \/ TSnapCheck \/ THookStall
+             \/ TFlush \/ TAddNI \/ TSnapCheck \/ THookStall \/ TUnchecked
 
 TraceSpec == TraceInit /\ [][TraceNext]_tvars
 
